@@ -142,6 +142,13 @@ class Hist:
             q["mbr"] = (777, 888)
             ies.append(l1.qer_ie(P.UPDATE_QER, q))
             ids["u_qers"] = [q["id"]]
+        elif kind == "upd_qer_remark":
+            # Update QER that lifts the flow QER above every other QER of the session: MarkSessionQer now picks it, so the stored QER
+            # is labelled session-level while its meter cell came from the application pool
+            q = dict(s["qers"][0])
+            q["mbr"] = (1000 * len(s["qers"]) + 5000, 2000 * len(s["qers"]) + 5000)
+            ies.append(l1.qer_ie(P.UPDATE_QER, q))
+            ids["u_qers"] = [q["id"]]
         elif kind == "upd_pdr":        # Update PDR (new precedence) of both PDRs of the first pair
             for p0 in s["pdrs"][:2]:
                 p = dict(p0)
@@ -184,6 +191,10 @@ def family():
     add("S10-mod-upd-pdr", lambda h: (h.establish("A", nq=1), h.modify("A", "upd_pdr")))
     # shared peer and filter, one of the two sessions is deleted: the shared ids must stay
     add("S11-shared-delete", lambda h: (h.establish("A", nq=1, gnb=0, sdf=0), h.establish("B", nq=2, gnb=0, sdf=0), h.delete("A")))
+    # re-marking: after the Update QER the stored flow QER carries the session label; ending the session must return its cell to the pool it came from
+    add("S12-mod-remark-delete", lambda h: (h.establish("A", nq=2), h.modify("A", "upd_qer_remark"), h.delete("A")))
+    add("M3-remark-tiny-session-meter", lambda h: (h.establish("A", nq=2), h.modify("A", "upd_qer_remark"), h.delete("A"), h.establish("B", nq=2, gnb=1, sdf=1)),
+        default_cfg({"PreQosPipe.session_meter": 3}))
     # migration probes: one pool kind has just two cells, so a cell released into the wrong pool is either out of
     # range there or collides with a cell that is in use
     add("M1-tiny-session-meter", lambda h: (h.establish("A", nq=2), h.establish("B", nq=1, gnb=1, sdf=1)),
